@@ -553,3 +553,21 @@ Proof.
     inversion H1; inversion H2. subst. unfold zof. cbn [map]. destruct (zof_conv_row r r' zr E1 E3) as [A _]. rewrite A.
     f_equal. apply IH; reflexivity.
 Qed.
+
+(* ------------------------------------------------------------------ non-vacuity of the hypotheses *)
+(* 0 -> 1 (cost 1), 0 -> 2 (cost 3), 1 -> 2 (cost 1): the cheaper two-edge route wins *)
+Example ex_w : qadj := [[(1%nat, inject_Z 1); (2%nat, inject_Z 3)]; [(2%nat, inject_Z 1)]; []].
+Example ex_w_hyps :
+  adj_ok (length ex_w) ex_w = true /\
+  (forall v e, In e (get [] ex_w v) -> exists c, snd e = inject_Z c /\ (0 < c)%Z) /\
+  sssp_weighted false ex_w 0 = Some [(0%nat, 0); (1%nat, 1); (2%nat, 2)] /\
+  sssp_weighted true ex_w 0 = Some [(0%nat, 0); (1%nat, 1); (2%nat, 2)].
+Proof.
+  split; [reflexivity|]. split; [|split; vm_compute; reflexivity].
+  intros v e H. unfold ex_w, get in H.
+  destruct v as [|[|[|v]]]; cbn in H.
+  - destruct H as [H|[H|[]]]; subst e; [exists 1%Z | exists 3%Z]; split; [reflexivity | lia | reflexivity | lia].
+  - destruct H as [H|[]]; subst e. exists 1%Z. split; [reflexivity | lia].
+  - destruct H.
+  - destruct v; destruct H.
+Qed.
